@@ -114,6 +114,9 @@ JSON_RAW = ['{ "a" : 1 , "b" : [ 1 , 2 ] }', '{ "@context" : "https://schema.org
 TEMPLATE_RAW = ['<p>  {{ x }}  </p>', '<div class="a">  b </div>']
 PLAIN = ['hello   world   #1 100% & more   text   here', 'it\'s  "quoted"  text      here  <b>', 'a b c d e f g h i j k l m n o p']
 BINARY = [bytes(range(0, 64)).decode('latin1') + ' ' * 10, ''.join(chr(c) for c in (200, 32, 201, 32, 10, 0, 37, 35, 255)) + 'x y z  w']
+TMPL = {'script': ['{{ x }}', 'var a={{ x }};', 'f({{ x }})'], 'style': ['a{color:{{ c }}}', '{{ s }}'], 'iframe': ['{{ x }}<p>a</p>']}
+EXTRA_ATTRS = {'script': ['', ' src=x.json', ' async', ' defer', ' nonce=n'], 'style': ['', ' media=print', ' nonce=n'],
+               'iframe': ['', ' src=x.html', ' title=t']}
 TYPES = {'tjs': 'text/javascript', 'jscs': 'text/javascript; charset=UTF-8', 'mod': 'module', 'ld': 'application/ld+json',
          'tpl': 'text/template', 'css': 'text/css', 'scss': 'text/x-scss'}
 
@@ -207,6 +210,14 @@ def predict(regs, mime):
     return None
 
 
+def leak_shape(shapes):
+    for a, b in zip(shapes, shapes[1:]):
+        if a[0] in ('script', 'style', 'iframe') and a[1] != [0] and a[3] != 'text' and \
+                b[0] in ('script', 'style', 'iframe') and b[1] == [0] and b[3] == 'text':
+            return True
+    return False
+
+
 def make_reg(rnd, lit, pat, beh):
     """concrete registration; beh: 0 succeeding (recording stub or wrapped real minifier), 1 failing"""
     real = REAL_FOR_PAT.get(pat) if pat else REAL_FOR_LIT.get(lit)
@@ -237,7 +248,8 @@ def make_case(ctx, hostkind, regcodes, shapes, menu, extra_regs=0, opts=False):
     hasfail = any(r['beh'] in ('fail', 'plainfail') or r['real'] == 'js' for r in regs)
     lits = [x for x in LITS[hostkind] if not (hasfail and '\n ' in x)]
     parts = []
-    for (kind, typ, mt) in shapes:
+    usetmpl = any(sh[3] == 'template' for sh in shapes) or (hostkind == 'html' and rnd.random() < 0.1)
+    for (kind, typ, mt, body) in shapes:
         parts.append(dict(lit=B(rnd.choice(lits))))
         hastype = typ != [0]
         slot = dict(kind=kind, hastype=hastype, type=typ if hastype else [], mt=mt)
@@ -248,22 +260,34 @@ def make_case(ctx, hostkind, regcodes, shapes, menu, extra_regs=0, opts=False):
             # directly or nested inside the real minifier that serves the URI
             served['beh'], served['real'] = 'stub', ''
             beh = 'stub'
-        cands = payloads_for(kind, lat(typ) if hastype else '', lat(mt), beh)
-        if hasfail:
-            if kind in ('dataUriAttr', 'cssDataUri'):
-                cands = [c for c in cands if '\n' not in c and '\r' not in c]
-        payload = vary(rnd, rnd.choice(cands))
+        attrs = ''
+        if kind in EXTRA_ATTRS and (body != 'text' or rnd.random() < 0.3):
+            # raw elements also come with attributes other than type (an empty script with a src, ...)
+            attrs = rnd.choice(EXTRA_ATTRS[kind])
+        if body == 'empty':
+            payload = ''
+        elif body == 'template':
+            payload = rnd.choice(TMPL[kind])
+        else:
+            cands = payloads_for(kind, lat(typ) if hastype else '', lat(mt), beh)
+            if hasfail:
+                if kind in ('dataUriAttr', 'cssDataUri'):
+                    cands = [c for c in cands if '\n' not in c and '\r' not in c]
+            payload = vary(rnd, rnd.choice(cands))
         enc = rnd.choice(['pct', 'b64'])
         quote = rnd.choice(['dq', 'sq'])
         if kind == 'cssDataUri':
             quote = rnd.choice(['dq', 'sq', 'none'])
             if quote == 'sq' and "'" in payload:
                 quote = 'dq'      # excluded construct (known finding): apostrophe in the result of a single-quoted url()
-        parts.append(dict(kind=kind, hastype=hastype, type=slot['type'], payload=B(payload), mt=mt, enc=enc, quote=quote))
+        parts.append(dict(kind=kind, hastype=hastype, type=slot['type'], payload=B(payload), mt=mt, enc=enc, quote=quote,
+                          attrs=B(attrs), tmpl=bool(usetmpl and kind in ('script', 'style', 'iframe') and '{{' in payload)))
     parts.append(dict(lit=B(rnd.choice(lits))))
     o = 0
     if opts and hostkind == 'html' and rnd.random() < 0.3:
         o = rnd.randint(1, 31)
+    if usetmpl and hostkind == 'html':
+        o |= 32                   # TemplateDelims {{ }}
     return dict(host=hostkind, opts=o, regs=regs, parts=parts)
 
 
@@ -271,7 +295,8 @@ def ident(c):
     return dict(host=c['host'], opts=c['opts'],
                 regs=[[r['k'], lat(r['lit']), r['pat'], r['beh'], r['real']] for r in c['regs']],
                 parts=[[lat(p['lit'])] if 'kind' not in p else
-                       [p['kind'], p['hastype'], lat(p['type']), lat(p['payload']), lat(p['mt']), p['enc'], p['quote']]
+                       [p['kind'], p['hastype'], lat(p['type']), lat(p['payload']), lat(p['mt']), p['enc'], p['quote']] +
+                       ([lat(p.get('attrs', [])), bool(p.get('tmpl'))] if (p.get('attrs') or p.get('tmpl')) else [])
                        for p in c['parts']])
 
 
@@ -279,7 +304,8 @@ def from_ident(c):
     return dict(host=c['host'], opts=c['opts'],
                 regs=[dict(k=r[0], lit=B(r[1]), pat=r[2], beh=r[3], real=r[4]) for r in c['regs']],
                 parts=[dict(lit=B(p[0])) if len(p) == 1 else
-                       dict(kind=p[0], hastype=p[1], type=B(p[2]), payload=B(p[3]), mt=B(p[4]), enc=p[5], quote=p[6])
+                       dict(kind=p[0], hastype=p[1], type=B(p[2]), payload=B(p[3]), mt=B(p[4]), enc=p[5], quote=p[6],
+                            attrs=B(p[7]) if len(p) > 7 else [], tmpl=p[8] if len(p) > 8 else False)
                        for p in c['parts']])
 
 
@@ -357,16 +383,24 @@ def run(ctx):
     sims = printed(rs['out'], 'EMBED')
     ctx.coverage['design_runs_simulated'] = len(sims)
 
-    budget = 9000 if quick else 120000
-    if len(runs) > budget:
-        runs = rnd.sample(runs, budget)
+    # "typed raw element whose text is never consumed (empty or template body), then an untyped raw element":
+    # every enumerated run of that shape is replayed, the rest is sampled within the budget
+    leak = [v for v in runs if leak_shape(v[3])]
+    rest = [v for v in runs if not leak_shape(v[3])]
+    ctx.coverage['design_runs_typed_unconsumed_then_untyped'] = len(leak)
+    budget = 7000 if quick else 120000
+    if len(leak) > budget // 2:
+        leak = rnd.sample(leak, budget // 2)
+    if len(rest) > budget:
+        rest = rnd.sample(rest, budget)
+    runs = leak + rest
     cases = []
     for v in runs:
         _, hk, regcodes, shapes = v
         if not shapes:
             continue
         cases.append(make_case(ctx, hk, regcodes, shapes, menu, extra_regs=rnd.choice([0, 0, 1, 2]), opts=True))
-        if rnd.random() < (0.3 if quick else 0.5):
+        if leak_shape(shapes) or rnd.random() < (0.3 if quick else 0.5):
             cases.append(make_case(ctx, hk, regcodes, shapes, menu, extra_regs=rnd.choice([0, 1, 3]), opts=True))
     for v in sims:
         _, hk, regcodes, shapes = v
@@ -397,7 +431,7 @@ def run(ctx):
         ctx.coverage['rejections_reproduced'] = reproduced
 
     # evidence
-    nslots = ncalls = nfail = nabsent = 0
+    nslots = ncalls = nfail = nabsent = nleak = nunconsumed = 0
     nontrivial = set()
     samples = []
     kinds = {}
@@ -406,8 +440,16 @@ def run(ctx):
         top = [c for c in e['calls'] if c['depth'] == 0]
         ncalls += len(top)
         nfail += sum(1 for c in top if c['fail'])
+        sl = e['slots']
+        for a, b in zip(sl, sl[1:]):
+            if a['kind'] in ('script', 'style', 'iframe') and a['hastype'] and (a['tmpl'] or not a['payload']) and \
+                    b['kind'] in ('script', 'style', 'iframe') and not b['hastype'] and b['payload'] and not b['tmpl']:
+                nleak += 1
+                break
         for s, o in zip(e['slots'], e['outslots']):
             nslots += 1
+            if s['tmpl'] or (s['kind'] in ('script', 'style', 'iframe') and not s['payload']):
+                nunconsumed += 1
             kinds[s['kind']] = kinds.get(s['kind'], 0) + 1
             if o['found'] and o['data'] != s['payload']:
                 nontrivial.add((e['host'], s['kind'], bytes(s['type']), bytes(s['payload']), bytes(o['data'])))
@@ -424,6 +466,8 @@ def run(ctx):
         nested_calls_checked=ncalls,
         nested_failures=nfail,
         slots_unchanged=nabsent,
+        slots_never_consumed=nunconsumed,
+        cases_typed_unconsumed_then_untyped=nleak,
         slots_by_kind=kinds,
         distinct_nontrivial=len(nontrivial),
         rule='a case is (host kind, registry configuration, sequence of literal parts and embedded slots with kind, type '
@@ -433,7 +477,7 @@ def run(ctx):
              'later line of the payload (fail2); SVG style element with a non-CSS type attribute; whitespace runs inside '
              'SVG style text/attributes/CDATA results; "]]>" in the result of a CDATA style; payloads in which the '
              'minifier\'s result forms a character reference in an HTML attribute (& lt;).  Not generated: & and < in SVG '
-             'style element text (passed to the minifier in escaped form), empty payloads.',
+             'style element text (passed to the minifier in escaped form); empty payloads only for script/style/iframe elements.',
         samples=samples,
     ))
     ctx.assumptions += [
